@@ -38,7 +38,7 @@ def scenarios(tier, seed):
                     b2 = -0.5        # y = 1/(1+t) blows up at t = -1
                 else:
                     b2 = b
-                for hist in range(5):
+                for hist in range(7):
                     n += 1
                     if not thorough and (n + seed) % 3:
                         continue
@@ -55,10 +55,22 @@ def scenarios(tier, seed):
                                      {"op": "integrate"}]
                     elif hist == 3:
                         sc["ops"] = [{"op": "integrate", "fault": 11 + (n % 17)}, {"op": "integrate"}]
+                    elif hist == 5:
+                        # the integration turns round twice: the pieces of three passes overlap, the end times are no longer ordered
+                        if prob in ("rat", "tdep"):
+                            continue
+                        sc["ops"] = [{"op": "integrate", "t": Q(0.7)}, {"op": "query"}, {"op": "integrate", "t": Q(0.3)}, {"op": "query"}, {"op": "integrate"}]
+                    elif hist == 6:
+                        # ... past the configured end, back beyond the start, events monitored on the way back (event handling consults
+                        # the dense output of the pass in progress)
+                        if prob in ("rat", "tdep"):
+                            continue
+                        sc["ops"] = [{"op": "integrate"}, {"op": "integrate", "t": Q(0.45), "events": [{"kind": "time", "c": Q(0.8)}, {"kind": "time", "c": Q(0.6), "dir": -1}]},
+                                     {"op": "query"}, {"op": "integrate", "t": Q(0.9)}]
                     else:
                         # an EVENT FUNCTION raises in the middle of the run (event handling is the one place that consults the dense
                         # output while the run is in progress); a user lookup after the failure, then the run is resumed without events
-                        if hist == 4 and prob in ("rat", "tdep") and (n + seed) % 2:
+                        if prob in ("rat", "tdep") and (n + seed) % 2:
                             continue
                         sc["ops"] = [{"op": "integrate", "events": [{"kind": "time", "c": Q(0.3)}, {"kind": "time", "c": Q(0.8), "dir": 1}],
                                       "fault": 9 + (n % 23), "faultSite": "event"},
